@@ -5,6 +5,8 @@ import (
 	"fmt"
 	"regexp"
 	"regexp/syntax"
+	"strings"
+	"unicode/utf8"
 )
 
 type Matcher struct {
@@ -153,6 +155,12 @@ func regexToPrefix(regex string) []byte {
 	substr := ""
 	for _, sub := range re.Sub[1:] {
 		if sub.Op != syntax.OpLiteral || sub.Flags&syntax.FoldCase != 0 {
+			break
+		}
+		// the regex engine reads any invalid UTF-8 byte of the input as U+FFFD, so a
+		// literal U+FFFD matches more than its own three bytes: the prefix ends before it.
+		if i := strings.IndexRune(string(sub.Rune), utf8.RuneError); i >= 0 {
+			substr += string(sub.Rune)[:i]
 			break
 		}
 		substr += string(sub.Rune)
